@@ -38,12 +38,31 @@ impl Number {
         self.pretty_print_with(&FormatOptions::default())
     }
 
-    /// Rounds (half away from zero) to the given number of decimal digits. Numbers
-    /// that are too large to have a fractional part are returned unchanged.
-    fn round_to_decimals(number: f64, decimals: i8) -> f64 {
-        let scale = 10.0_f64.powi(decimals.into());
-        let rounded = (number * scale).round() / scale;
-        if rounded.is_finite() { rounded } else { number }
+    /// pretty_dtoa panics with an arithmetic overflow when `max_decimal_digits` cuts off
+    /// *all* digits of a number and the remainder is rounded up (0.5 with zero decimals,
+    /// 0.05 with one decimal, …). The result is known in that case: one unit of the last
+    /// decimal. The decision is made on the shortest decimal representation, which is
+    /// what pretty_dtoa works on, so that it is exact for any number of decimals.
+    fn round_up_if_all_digits_are_cut(number: f64, decimals: i8) -> f64 {
+        // `d.ddd…e<exponent>`; infinities and NaN have no exponent and are left alone
+        let scientific = format!("{:e}", number.abs());
+        let Some((mantissa, exponent)) = scientific.split_once('e') else {
+            return number;
+        };
+        let Ok(exponent) = exponent.parse::<i32>() else {
+            return number;
+        };
+
+        let first_digit_is_right_behind_the_cut = exponent + 1 == -i32::from(decimals);
+        if first_digit_is_right_behind_the_cut && mantissa.as_bytes()[0] >= b'5' {
+            format!("1e{}", -i32::from(decimals))
+                .parse::<f64>()
+                .map_or(number, |unit_of_last_decimal| {
+                    unit_of_last_decimal.copysign(number)
+                })
+        } else {
+            number
+        }
     }
 
     /// Pretty prints with the given format options.
@@ -105,13 +124,9 @@ impl Number {
                     .round()
             };
 
-            // pretty_dtoa panics with an arithmetic overflow when `max_decimal_digits`
-            // cuts off all digits of a number and the remainder is rounded up (0.5 with
-            // zero decimals, 0.05 with one decimal, …). Round to the requested number of
-            // decimals first, so that there is nothing left to round up.
             let number = match config.max_decimal_digits {
                 Some(decimals) if matches!(config.round_mode, RoundMode::Round) => {
-                    Self::round_to_decimals(number, decimals)
+                    Self::round_up_if_all_digits_are_cut(number, decimals)
                 }
                 _ => number,
             };
